@@ -25,6 +25,8 @@ func runC18(c *Ctx) {
 	c18Reroute(c)
 	c18Verify(c)
 	c18Knowledge(c)
+	c18KnowledgeKey(c)
+	c18NormalizeStripsPort(c)
 }
 
 func c18Target(c *Ctx) {
